@@ -38,7 +38,7 @@ def main():
             else:
                 kind = None
             matrix[sid] = {"property": prop, "check_exit": p.returncode, "caught": p.returncode == 1, "n_violation_lines": len([l for l in lines if l.startswith("VIOLATION")]),
-                           "first_kind": kind, "first_what": what, "wall_s": round(time.time() - t0, 1), "summary": [l for l in p.stdout.splitlines() if " tier=" in l][-1:] }
+                           "first_kind": kind, "first_what": what, "mechanisms": next((l[len("MECHANISMS "):] for l in p.stdout.splitlines() if l.startswith("MECHANISMS ")), ""), "wall_s": round(time.time() - t0, 1), "summary": [l for l in p.stdout.splitlines() if " tier=" in l][-1:] }
             print(sid, matrix[sid]["check_exit"], matrix[sid]["first_kind"], what[:100], flush=True)
             json.dump(matrix, open(f"{SEEDED}/matrix.json", "w"), indent=1)
     finally:
